@@ -35,7 +35,8 @@ CLAIMED = {
             "<=4 frames, patterns <=2x1 / 2x2, hierarchy 2 levels. exp/log/sqrt uninterpreted with monotonicity+anchor axioms. Out of reach and not "
             "claimed: beat.p_score, beat.information_gain, alignment.karaoke_perceptual_metric, transcription_velocity, separation.", "5 (C01)"),
     "C02": ("Every metric run on (x, copy of x) with x symbolic; z3 shows agreement scores == 1 and errors == 0 on every path under the statement's "
-            "non-degeneracy conditions; Goto on 5-6 beats, continuity on 5 beats (thorough).",
+            "non-degeneracy conditions; Goto on 5-6 beats, continuity on 5 beats (thorough); transcription_velocity with the exact least-squares model "
+            "(normal equations) for 1-2 symbolic notes and three overlapping notes with a symbolic velocity.",
             "Bounds: 1..3 (quick) / 1..4 (thorough) items; Cemgil assumes beats >= 0.16 s apart; melody with binary voicing; frame-level degeneracy of "
             "segmentations judged after sampling (conventions asserted, 0/0 cases left to C01). P-score/information gain out of reach.", "5 (C02)"),
     "C06": ("Same-path double execution m(a,b), m(b,a) of every symmetric metric; z3 shows P/R exchange and symmetric scores coincide for all inputs on the path.",
@@ -90,16 +91,18 @@ CLAIMED = {
     "C19": ("PARTIAL SCOPE - orchestration only: with the numerical core stubbed by arbitrary symbolic values, z3 shows the four BSS components sum to the "
             "padded estimate for every projection, the returned perm is a permutation maximising mean SIR (identity without compute_permutation) with outputs "
             "equal to the selected criteria and independent of np.empty contents, and the framewise variants hand the right slices to the per-window "
-            "function, copy its results, put NaN in every metric of silent windows and return the documented arity for empty input.",
+            "function with the caller's compute_permutation flag (also in the single-window fall-back), copy its results, put NaN in every metric of silent windows "
+            "and return the documented arity for empty input.",
             "NOT covered (not applicable to SMT encoding, see DESIGN 6): scale invariance of SDR/SIR/SAR, perfect estimate => identity permutation with very high "
             "SDR, framewise == non-framewise values - these depend on 512-tap FFT/Toeplitz float64 numerics. Bounds: nsrc<=3, flen=2, nsampl<=3; framewise 2 sources, "
             "<=8 samples. Two genuine defects fixed.", "5 (C19), 6"),
     "C20": ("PARTIAL SCOPE - tokenisation and post-parse contract: the real load_delimited on a line assembled from symbolic string pieces (fields, whitespace / "
             "custom delimiters, label with interior whitespace, comment marker) through a symbolic model of its `re` calls: z3 shows the columns are exactly the "
-            "written fields, comment lines vanish, wrong column counts / unparsable numbers raise ValueError, file order is kept; loaders on arbitrary parsed "
+            "written fields, comment lines vanish, wrong column counts / unparsable numbers raise ValueError, file order is kept; the same for one row of "
+            "load_ragged_time_series (time stamp + 0-2 values) and for load_patterns files with a concrete header structure and symbolic note tokens; loaders on arbitrary parsed "
             "columns return values in file order, only warn on convention violations, and reject tempo weight outside [0,1] and multi-line key/tempo files.",
             "NOT covered (see DESIGN 6): bit-identical float round trip (float() is an injective uninterpreted token), path vs. file object, row numbers in messages, "
-            "labels outside code points 9..126, load_patterns / load_ragged_time_series. Bounds: pieces <=2/3 chars, label <=3/5, 1-2 lines, <=2/3 parsed rows.", "5 (C20), 6"),
+            "labels outside code points 9..126, load_wav. Bounds: pieces <=2/3 chars, label <=3/5, 1-2 lines, <=2/3 parsed rows.", "5 (C20), 6"),
     "C04": ("Differential check of the real functions against independently written specification terms over the same symbolic inputs: hit-based P/R/F "
             "from the definition 'k = size of a maximum one-to-one matching under the tolerance predicate' (existence and maximality as Boolean selection "
             "queries), Cemgil with uninterpreted exp (congruence), melody VR/VFA/RPA/RCA/OA closed forms, tempo P-score/flags, key relation table over key "
